@@ -980,7 +980,7 @@ def correspondence(ctx):
         finally:
             run.close()
         done_rand += 1
-        if time.time() - t0 > ctx.budget(78, 740):
+        if time.time() - t0 > ctx.budget(74, 740):
             break
     batch.flush()
     ctx.log("random schedules: %d (%.1fs)" % (done_rand, time.time() - t_rand))
